@@ -13,36 +13,10 @@ HEAD = '''/-
   the result slot exactly the value (or enters the trap handler with exactly the code) that
   the WebAssembly specification (`Spec.Int`) prescribes.  All 2^32 / 2^64 values per operand.
 -/
-import W2c2Verif.Props.C01
-import W2c2Verif.Model.EmitNumeric
-import W2c2Verif.Spec.Num
+import W2c2Verif.Lemmas.NumEval
 
 namespace W2c2Verif.Props.C01
 open W2c2Verif
-
-/-- the callable definitions visible to emitted code: the macros of w2c2_base.h (this host's configuration) -/
-def macroDefs : Defs := defsOfMacros Gen.macrosLE noDefs
-theorem repr0 : Nat.repr 0 = "0" := by decide
-theorem repr1 : Nat.repr 1 = "1" := by decide
-
-/-- evaluate `runNumeric` on a concrete opcode: table lookup, statement construction, slot names -/
-macro "num_unfold" : tactic => `(tactic|
-  simp +decide [Model.runNumeric, lookupAssoc, Gen.emitTable, Model.numEmit, Model.binOpOfString, Model.unaryExpr,
-    Model.isIdent, Model.parseCastChain, Model.lookupVT, Gen.opcodeResultType, Gen.opcodeParam1Type,
-    Model.slotName, Gen.VT.idx, Gen.VT.cty, Gen.VT.signedCty, Gen.VT.shiftMask, Gen.stackNamePrefix,
-    Gen.valueTypeStackNames, Gen.valueTypeNames, Gen.signedTypeNames, Gen.shiftMaskStrings, CTy.ofName, repr0, repr1])
-
-/-- evaluate the emitted statement; calls of header macros are rewritten with the theorems of part A -/
-macro "num_eval" : tactic => `(tactic|
-  simp +decide [CExpr.eval, CExpr.typeOf, CStmt.exec_seq, CStmt.exec_skip, CStmt.exec_decl,
-        CStmt.exec_assign, CStmt.exec_opAssign, CStmt.exec_ifThen, CStmt.exec_ret, Env.get, Env.set,
-        CVal.fromNat, CVal.fromInt, CVal.binop, CVal.unop, CVal.shift, CVal.withAmt, CPrim.amtOk, CTy.common, CTy.promote, CVal.ty,
-        CPrim.cmpS, CPrim.cmpU, CPrim.arithS, CPrim.arithU, CPrim.shiftU, CPrim.shiftS, BinOp.isCmp,
-        Out.map', builtin1, builtin2, signbitSem, macroDefs, defsOfMacros, lookupAssoc, Gen.macrosLE, CVal.truthy,
-        i32_div_s_correct, i64_div_s_correct, i32_rem_s_correct, i64_rem_s_correct,
-        i32_div_u_correct, i64_div_u_correct, i32_rem_u_correct, i64_rem_u_correct,
-        i32_rotl_correct, i64_rotl_correct, i32_rotr_correct, i64_rotr_correct,
-        -BitVec.shiftLeft_eq', -BitVec.ushiftRight_eq', -BitVec.sshiftRight_eq'])
 
 '''
 
@@ -81,18 +55,18 @@ def main():
         rc = CT[res]
         if op in TRAPPING:
             rhs = f"({sf}).map' .{rc}"
-            fin = f"cases {sf} <;> simp"
+            fin = f"cases {sf} <;> simp [CVal.fromNat, Env.get]"
         else:
             rhs = f".val (.{rc} ({sf}))"
             if op in CMP:
-                fin = ("simp [Spec.bool32, Spec.ieqz_eq, Spec.ieq_eq, Spec.ine_eq, Spec.ilt_s_eq, Spec.ilt_u_eq, Spec.igt_s_eq, Spec.igt_u_eq, "
-                       "Spec.ile_s_eq, Spec.ile_u_eq, Spec.ige_s_eq, Spec.ige_u_eq]")
+                fin = ("all_goals (simp [Spec.bool32, Spec.ieqz_eq, Spec.ieq_eq, Spec.ine_eq, Spec.ilt_s_eq, Spec.ilt_u_eq, Spec.igt_s_eq, Spec.igt_u_eq, "
+                       "Spec.ile_s_eq, Spec.ile_u_eq, Spec.ige_s_eq, Spec.ige_u_eq]; try (split <;> rfl))")
             elif op in ("shl", "shr_s", "shr_u"):
-                fin = f"simp only [Spec.{SPEC[op]}_eq{W[t]}]; bv_close"
+                fin = f"all_goals (simp only [Spec.{SPEC[op]}_eq{W[t]}]; bv_close)"
             elif op in ("clz", "ctz", "popcnt"):
-                fin = "num_bits"
+                fin = "all_goals (first | rfl | bv_close)"
             else:
-                fin = "first | rfl | (simp [Spec.iadd, Spec.isub, Spec.imul, Spec.iand, Spec.ior, Spec.ixor, Spec.wrap_i64, Spec.extend_i32_s, Spec.extend_i32_u, Spec.iextend_s]; done) | bv_close"
+                fin = "all_goals first | rfl | (simp [Spec.iadd, Spec.isub, Spec.imul, Spec.iand, Spec.ior, Spec.ixor, Spec.wrap_i64, Spec.extend_i32_s, Spec.extend_i32_u, Spec.iextend_s]; done) | bv_close | (simp only [Spec.wrap_i64, Spec.extend_i32_s, Spec.extend_i32_u, Spec.iextend_s]; bv_close)"
         out.append(f"set_option maxRecDepth 8192 in\ntheorem {thm} {binders} :\n    Model.runNumeric macroDefs \"{name}\" [{args}] = {rhs} := by\n  num_unfold; num_eval\n  {fin}\n")
     out.append("end W2c2Verif.Props.C01\n")
     path = os.path.join(os.path.dirname(os.path.abspath(__file__)), "..", "..", "lean", "W2c2Verif", "Props", "C01Ops.lean")
